@@ -51,7 +51,19 @@ def units(tier):
                 if (m, op) in ESCAPES:
                     continue
                 U.append((pfx, m, op, 'neg-lite'))
+    # rows whose last operand is an 8-bit selector / predicate / count: every value of that byte (interior values)
+    for pfx, m, op, has_modrm in IMM8_ROWS:
+        U.append((pfx, m, op, 'imm8sweep' if has_modrm else 'imm8sweep-nomodrm'))
     return U
+
+
+IMM8_ROWS = ([(p, '0f', 0xC2, True) for p in ((), (0x66,), (0xF2,), (0xF3,))] + [(p, '0f', 0x70, True) for p in ((), (0x66,), (0xF2,), (0xF3,))] +
+             [(p, '0f', o, True) for p in ((), (0x66,)) for o in (0xC6, 0xC4, 0xC5, 0x71, 0x72, 0x73)] +
+             [((0x66,), '0f3a', o, True) for o in (0x08, 0x09, 0x0A, 0x0B, 0x0C, 0x0D, 0x0E, 0x0F, 0x14, 0x15, 0x16, 0x17, 0x20, 0x21, 0x22, 0x40, 0x41, 0x42, 0x44,
+                                                   0x60, 0x61, 0x62, 0x63)] + [((), '0f3a', 0x0F, True)] +
+             [(p, '0f', o, True) for p in ((), (0x66,)) for o in (0xA4, 0xAC, 0xBA)] +
+             [(p, '1', o, True) for p in ((), (0x66,)) for o in (0xC0, 0xC1, 0x6B, 0x80, 0x83, 0xC6)] +
+             [((), '1', o, False) for o in (0xCD, 0xD4, 0xD5, 0x6A, 0xA8, 0xE4, 0xE6, 0xEB, 0x74, 0xB0)])
 
 
 def modrm_variants(tier):
@@ -77,6 +89,15 @@ _MV = {}
 def cases_of(unit, tier):
     """yield (bytes, meta) for one work unit; meta = (pfx, map, op, modrm, sib)"""
     pfx, m, op, tn = unit
+    if tn.startswith('imm8sweep'):
+        head = bytes(pfx) + MAPS[m] + bytes([op])
+        for v in range(256):
+            if tn == 'imm8sweep':
+                for modrm in (0xC1, 0x00, 0xF8, 0x10):
+                    yield (head + bytes([modrm, v]) + T_NEG)[:15], (pfx, m, op, modrm, None)
+            else:
+                yield (head + bytes([v]) + T_NEG)[:15], (pfx, m, op, 0xC0, None)
+        return
     lite = tn.endswith('-lite')
     tail = TAILS[tn[:-5] if lite else tn]
     head = bytes(pfx) + MAPS[m] + bytes([op])
